@@ -617,6 +617,12 @@ def _delimiter_table(ctx, no):
                     vals, nonconst = C.const_return(cf)
                     if vals == {10} and not nonconst:
                         return "set:newline-iff-replace"
+            # `replace.is_some().then_some(b'\n')`: the same value
+            if o.k == "call" and o.a["name"] == "then_some" and len(o.kids) == 2:
+                c0 = prim.expand_single_def_vars(no, o.kids[0]).strip()
+                v1 = o.kids[1].strip()
+                if c0.k == "call" and c0.a["name"] == "is_some" and "replace" in c0.fmt() and not [c for c in c0.call_nodes() if c.a["name"] not in ("is_some", "as_ref", "as_deref")] and v1.k == "const" and v1.a.get("v") == 10:
+                    return "set:newline-iff-replace"
             return "set:other"
         return None
     g = prim.event_graph(no, role2, branch_role=_delim_brole(no), stmt_role=_delim_srole(no, dl))
